@@ -15,7 +15,7 @@ import (
 func init() {
 	register("C08", PropCheck{
 		Title:      "No sequence of client inputs can crash the engine or corrupt a session",
-		Explain:    "Named crash and consistency mechanisms, decided structurally: (R1) every explicit panic in a library function reachable (CHA over the library) from Exec/Flush/Finish/Reset is classified by the condition that controls it, not by the function it sits in (so a guard moved into a helper keeps its class) - flag index against BitSize and self-move (excluded by the property's well-formedness assumptions), Db.Safe and Persister.Invalid (configuration misuse), infeasible (checked: guarded by a test that an earlier return already excluded), depth against MaxLevel (checked: every reachable call site of the exported state functions that reach it lies behind a comparison with state.MaxLevel) - and a reachable panic controlled by anything else is a violation; (R2) navigation depth and cache scopes move in lockstep: Down/Push and Up/Pop are paired on every path and no other frame-count change happens in vm/engine; (R3) browsing out of range is an error, not a crash: every index and slice in Sizer.GetAt and Menu.applyPage/shiftMenu is proved in bounds by the zone engine, applyPage reports *BrowseError for an index beyond the page count, and Vm.Render answers a BrowseError by moving to the catch node and rendering again; (R4) every byte index in the input-validation functions of package vm is proved in bounds (arbitrary client bytes reach them); (R5) the cache's size accounting rules (C09 R4-R6: value classes of every CacheUseSize update, rollback before every error return, scope release) hold, so accounting matches contents after every request.",
+		Explain:    "Named crash and consistency mechanisms, decided structurally: (R1) every explicit panic in a library function reachable (CHA over the library) from Exec/Flush/Finish/Reset is classified by the condition that controls it, not by the function it sits in (so a guard moved into a helper keeps its class) - flag index against BitSize and self-move (excluded by the property's well-formedness assumptions), Db.Safe and Persister.Invalid (configuration misuse), infeasible (checked: guarded by a test that an earlier return already excluded), depth against MaxLevel (checked: every reachable call site of the exported state functions that reach it lies behind a comparison with state.MaxLevel) - and a reachable panic controlled by anything else is a violation; (R2) navigation depth and cache scopes move in lockstep: Down/Push and Up/Pop are paired on every path and no other frame-count change happens in vm/engine; (R3) browsing out of range is an error, not a crash: every index and slice in Sizer.GetAt and Menu.applyPage/shiftMenu is proved in bounds by the zone engine, applyPage reports *BrowseError for an index beyond the page count, and Vm.Render answers a BrowseError by moving to the catch node and rendering again; (R4) every byte index in the input-validation functions of package vm is proved in bounds (arbitrary client bytes reach them); (R5) the cache's size accounting rules (C09 R4-R6: value classes of every CacheUseSize update, rollback before every error return, scope release) hold, so accounting matches contents after every request; (R6) no lossy integer narrowing in any function reachable from the entry points (constructors included): every conversion to a type that cannot hold all values of its source type has an operand the zone engine proves within the target range at that point, or is a length (built from len() results only) converted to at least 32 bits, or the number of page cursors converted to 16 bits (both covered by stated assumptions) - a wrapped size, limit or count is how a buffer ends up shorter than its index range.",
 		NotDecided: "absence of implicit panics (nil dereference, map of nil, index) in all other functions reachable from Exec - the bounds engine is applied to the decoder (C15), the input validators and the named renderer functions, not to the whole reachable set; 'can still be saved, loaded and continued' as a whole-history statement; input validation preceding every effect is C17.",
 		Assume:     []string{"calls through interfaces and function values (logging, formatting) do not write the fields of renderer objects being read (used to unify repeated loads of a field)"},
 		Run:        runC08,
@@ -167,6 +167,7 @@ func runC08(w *core.World, r *core.Report) {
 	r.Rule("R3", "browse out of range: GetAt/applyPage/shiftMenu in bounds, BrowseError reported and handled by Vm.Render")
 	r.Rule("R4", "byte indices in vm's input validation functions are in bounds")
 	r.Rule("R5", "cache size accounting rules (C09 R4-R6)")
+	r.Rule("R6", "no lossy integer narrowing on the request path (incl. constructors): operand proved in range, or a length < 2^32 / page count < 2^16 by assumption")
 
 	var roots []*ssa.Function
 	for _, n := range []string{"(*DefaultEngine).Exec", "(*DefaultEngine).Flush", "(*DefaultEngine).Finish", "(*DefaultEngine).Reset"} {
@@ -241,6 +242,17 @@ func runC08(w *core.World, r *core.Report) {
 	r.Floor("R1", "functions reachable from the request entry points", len(reach), 100)
 	r.Floor("R1", "reachable explicit panics", np, 1)
 
+	// ---- R6 -----------------------------------------------------------------------------------
+	{
+		var fns []*ssa.Function
+		for _, fn := range w.LibFuncs {
+			if reach[fn] && core.QName(fn) != "vm.NewLine" { // the line builder is an encoder: C14 R3
+				fns = append(fns, fn)
+			}
+		}
+		n := checkNarrowing(w, r, "R6", fns, "the wrapped value is used as a size, limit, count or index on the request path (a buffer shorter than its index range, a limit that wraps to 'unlimited')")
+		r.Floor("R6", "narrowing conversions on the request path", n, 5)
+	}
 	if os.Getenv("VISCHECK_EXPLORE") == "implicit" {
 		exploreImplicit(w, r, reach)
 	}
